@@ -571,7 +571,6 @@ impl IsoCheck for C06 {
             rep.violation(v);
         };
         let declared = declared_dict(&c.dec, data);
-        let _t = Timer(c.class, c.dec.family(), std::time::Instant::now());
         alloc::set_request_cap(crate::iso::REQUEST_CAP);
         let base = alloc::begin();
         let r = catch(|| run_decoder(&c.dec, data));
@@ -629,22 +628,4 @@ pub fn run(cli: &Cli, rep: &Report) {
         rep.sample(json!({"case": check.desc(i)}));
     }
     let _ = lzip_members(&[]);
-}
-
-struct Timer(&'static str, &'static str, std::time::Instant);
-static TIMES: std::sync::Mutex<Option<std::collections::BTreeMap<(&'static str, &'static str), (u64, u128)>>> = std::sync::Mutex::new(None);
-impl Drop for Timer {
-    fn drop(&mut self) {
-        if std::env::var_os("VERIF_C06_TIMES").is_none() {
-            return;
-        }
-        let mut g = TIMES.lock().unwrap();
-        let m = g.get_or_insert_with(Default::default);
-        let e = m.entry((self.0, self.1)).or_insert((0, 0));
-        e.0 += 1;
-        e.1 += self.2.elapsed().as_micros();
-        if self.0 == "amplification" && self.1 == "lzma2" {
-            eprintln!("{:?}", m);
-        }
-    }
 }
